@@ -72,7 +72,8 @@ func genChain(t *rapid.T, r *kit.Rec) (vars string, chain []string) {
 	for i := 0; i < k; i++ {
 		var menu []string
 		if streamEdge {
-			menu = []string{"windowT", "windowC", "stateCount", "stateDuration", "derivative", "changeDetect", "sample", "evalCount", "evalSigma", "whereCount", "sum", "cumulativeSum", "movingAverage", "difference", "elapsed", "alert", "nested"}
+			menu = []string{"windowT", "windowC", "stateCount", "stateDuration", "derivative", "changeDetect", "sample", "evalCount", "evalSigma", "whereCount", "sum", "cumulativeSum", "movingAverage", "difference", "elapsed", "alert", "nested",
+				"deleteDim", "deleteDim", "mixedWhere", "mixedEval", "mixedState", "defaultTag"}
 		} else {
 			menu = []string{"bcount", "bsum", "bmax"}
 		}
@@ -124,6 +125,24 @@ func genChain(t *rapid.T, r *kit.Rec) (vars string, chain []string) {
 			chain = append(chain, "|elapsed('v', 1s).as('v')")
 		case "alert":
 			chain = append(chain, fmt.Sprintf("|alert().warn(lambda: \"v\" > %d).crit(lambda: \"v\" > %d).critReset(lambda: \"v\" < %d).stateChangesOnly().levelField('lvl%d').durationField('dur%d').idField('id%d')", thr(), thr()+2, thr(), i, i, i))
+		case "deleteDim":
+			if len(chain) > 0 {
+				// nodes above may drop the field that identifies the group at the sink
+				chain = append(chain, fmt.Sprintf("|stateCount(lambda: \"v\" > %d).as('sc%d')", thr(), i))
+				continue
+			}
+			// deleting a group-by tag below a stateful node must not disturb the grouping above it
+			chain = append(chain, fmt.Sprintf("|stateCount(lambda: \"v\" > %d).as('dsc%d')", thr(), i), fmt.Sprintf("|delete().tag('%s')", rapid.SampledFrom([]string{"a", "b"}).Draw(t, "deltag")))
+			return
+		case "defaultTag":
+			chain = append(chain, "|default().tag('zz', 'dflt').field('q', 1)")
+		case "mixedWhere":
+			// the right operand's type (field thr: int in some groups, float in others) differs between groups
+			chain = append(chain, "|where(lambda: count() > \"thr\")")
+		case "mixedEval":
+			chain = append(chain, fmt.Sprintf("|eval(lambda: count() >= \"thr\", lambda: \"thr\" * \"thr\").as('me%d', 'mq%d').keep()", i, i))
+		case "mixedState":
+			chain = append(chain, fmt.Sprintf("|stateCount(lambda: count() > \"thr\").as('ms%d')", i))
 		case "nested":
 			vars += fmt.Sprintf("var nl%d = lambda: count()\n", i)
 			chain = append(chain, fmt.Sprintf("|eval(lambda: nl%d + 0).as('n%d').keep()", i, i))
@@ -213,14 +232,33 @@ func (c Case) points() []kit.Pt {
 	var pts []kit.Pt
 	for i, p := range c.Pts {
 		t += p.Gap
-		pts = append(pts, kit.Pt{Name: fmt.Sprintf("m%d", p.M), Tags: map[string]string{"a": p.A, "b": p.B},
-			Fields: map[string]kit.FV{"v": kit.I(p.V), "n": kit.I(int64(i))}, Time: t})
+		pt := kit.Pt{Name: fmt.Sprintf("m%d", p.M), Tags: map[string]string{"a": p.A, "b": p.B},
+			Fields: map[string]kit.FV{"v": kit.I(p.V), "n": kit.I(int64(i)), "thr": thrOf(p)}, Time: t}
+		// the group the point belongs to, carried as a field so that a sink below a node that deletes a
+		// group-by tag can still tell the groups apart
+		pt.Fields["gk"] = kit.S(c.key(pt.Name, pt.Tags))
+		pts = append(pts, pt)
 	}
 	return pts
 }
 
+// thrOf: a threshold field whose TYPE depends on the point's tag tuple (int in some groups, float in others).
+func thrOf(p P) kit.FV {
+	h := 0
+	for _, ch := range p.A + "|" + p.B {
+		h = h*31 + int(ch)
+	}
+	if h%2 == 0 {
+		return kit.I(2)
+	}
+	return kit.F(2)
+}
+
 func obsKey(c Case, o kit.Obs) (key, gid string) {
 	if o.P != nil {
+		if gk, ok := o.P.Fields["gk"]; ok && gk.T == "s" {
+			return gk.V, o.P.Group
+		}
 		return c.key(o.P.Name, o.P.Tags), o.P.Group
 	}
 	return c.key(o.B.Name, o.B.Tags), o.B.Group
@@ -297,8 +335,13 @@ func runIso(c Case, cc *kit.Case) {
 	idOf := map[string]string{}
 	keyOf := map[string]string{}
 	fullBy := map[string][]kit.Obs{}
+	regrouped := strings.Contains(script, "|delete().tag(") // the sink sees the grouping after a group-by tag was deleted
 	for _, o := range full {
 		k, gid := obsKey(c, o)
+		if regrouped {
+			fullBy[k] = append(fullBy[k], o)
+			continue
+		}
 		if prev, ok := idOf[k]; ok && prev != gid {
 			cc.Fail("groupid/split", "points of one group (%s) carry two group ids %q and %q\n%s", k, prev, gid, script)
 			return
